@@ -243,6 +243,8 @@ def guardedStmt (k : Known) : UStmt → Option Known
     | some _ => some Known.none
     | none => none
   | .clear f => some (k.forget f)
+  | .zeroInt f => some (k.forget f)
+  | .zeroInts f _ => some (k.forget f)
   | .makeInts f _ => some (k.forget f)
   | .forCountInt b w _ _ g =>          -- reads `count` integers with no guard inside the loop
     if covered k b (.mul w (.fint g)) then some Known.none else none
@@ -725,6 +727,16 @@ def readDeep : List UStmt → List String
   | s :: r => readStmt s ++ readDeep r
 end
 
+/-- the fields an unmarshal program sets to zero in front of the word-count test under which it reads them
+    (`c.F = 0; if WordCount == k { … c.F = … }`): when the test fails the receiver does not keep an old value -/
+def resetBeforeTest : List UStmt → List String
+  | [] => []
+  | .zeroInt f :: .ifWordCount k body :: r =>
+    (if (readDeep body).contains f then [f] else []) ++ resetBeforeTest (.ifWordCount k body :: r)
+  | .zeroInts f _ :: .ifWordCount k body :: r =>
+    (if (readDeep body).contains f then [f] else []) ++ resetBeforeTest (.ifWordCount k body :: r)
+  | _ :: r => resetBeforeTest r
+
 inductive RtFinding
   | andxNotConsumed | fieldNotMarshalled | fieldNotUnmarshalled | readsWholeBuffer | conditionalField | fixedEntrySize
   deriving DecidableEq, Repr, Inhabited
@@ -746,8 +758,13 @@ def knownRtKind (c : Cmd) : Option RtFinding :=
   -- two or more nested values each decoded from the start of the block instead of from `offset`
   else if (c.unmarshal.filter (fun s => match s with | .readSub _ _ _ _ true _ _ => true | _ => false)).length ≥ 2 then
     some .readsWholeBuffer
-  -- a field emitted only under a condition on `WordCount` or on its own value, read back under another
-  else if c.marshal.any (fun s => match s with | .ifWordCount .. | .ifNonZero .. | .ifNonZeroArr .. => true | _ => false) then
+  -- a field emitted under a condition on the `WordCount` Marshal is still building (never true), or emitted iff
+  -- non-zero and not reset by Unmarshal in front of the word-count test that reads it (a receiver that held a
+  -- value from an earlier message keeps it when the short form arrives)
+  else if c.marshal.any (fun s => match s with
+      | .ifWordCount .. => true
+      | .ifNonZero f _ | .ifNonZeroArr f _ => !(resetBeforeTest c.unmarshal).contains f
+      | _ => false) then
     some .conditionalField
   -- list entries decoded through a fixed window whose size is not the entries' encoded size
   else if c.unmarshal.any (fun s => match s with | .whileFitsSub .. => true | _ => false) then
